@@ -96,8 +96,13 @@ class World:
         loop.quiescent = False
         asyncio.set_event_loop(loop)
 
+        from .sim import WorkBudgetExceeded
+
         try:
             loop.run_forever()
+        except WorkBudgetExceeded:
+            # deterministic spin detection (see Sim.count_sent_packet)
+            loop.capped = True
         finally:
             asyncio.set_event_loop(None)
 
